@@ -144,6 +144,20 @@ def clause(cap, ops, impl_out) -> str:
             d.clear()
         elif op[0] == "get" and o is not None and d.get(op[1]) != o:
             return f"lru_get_returns_last_set: get {op[1]} returned {o}, dictionary holds {d.get(op[1])}"
+    # lru_recent_key_survives / lru_set_then_get_hits evaluated on the implementation's own outputs:
+    # a key set fewer than `cap` non-clear operations ago must still be found.
+    if cap is None or cap > 0:
+        last_set = {}
+        for i, (op, o) in enumerate(zip(ops, impl_out["out"])):
+            if op[0] == "clear":
+                last_set.clear()
+            elif op[0] == "set":
+                last_set[op[1]] = i
+            elif op[0] in ("get", "has") and op[1] in last_set:
+                between = i - last_set[op[1]] - 1
+                if (cap is None or between < cap) and (o is None or o is False):
+                    name = "lru_set_then_get_hits" if between == 0 else "lru_recent_key_survives"
+                    return f"{name}: {op[0]} {op[1]} misses {between} operations after its set, cap {cap}"
     if cap is not None and sum(impl_out["has"]) > cap:
         return f"lru_size_le_cap: {sum(impl_out['has'])} keys present, cap {cap}"
     if cap is None:
